@@ -1,6 +1,549 @@
-//! C07 — not built yet.
-use crate::ev::Tier;
-pub fn main(_tier: Tier, _replay: Option<serde_json::Value>) -> i32 {
-    eprintln!("C07: check not built yet");
-    2
+//! C07 — circuit shape is independent of witness values; generation is total.
+
+use std::sync::Arc;
+
+use dusk_jubjub::{JubJubExtended, GENERATOR_EXTENDED};
+use dusk_plonk::prelude::*;
+use serde_json::json;
+
+use crate::dispatch;
+use crate::e2::{self, Gadget};
+use crate::ev::{Run, Tier};
+use crate::fe::*;
+use crate::m1;
+use crate::m5::{self, Pt};
+use crate::prog::Prog;
+
+type Build = Arc<dyn Fn(&mut Composer, &[Fe]) -> Result<(), Error> + Send + Sync>;
+
+struct Comp {
+    name: String,
+    arity: usize,
+    build: Build,
+}
+
+fn comp<F>(name: &str, arity: usize, f: F) -> Comp
+where
+    F: Fn(&mut Composer, &[Fe]) -> Result<(), Error> + Send + Sync + 'static,
+{
+    Comp { name: name.to_string(), arity, build: Arc::new(f) }
+}
+
+fn tf(c: &Composer, x: Witness, y: Witness) -> TorsionFreeWitnessPoint {
+    TorsionFreeWitnessPoint::new_unchecked(c.verif_point(x, y))
+}
+
+fn components(tier: Tier) -> Vec<Comp> {
+    let mut v = vec![];
+    let ws = |c: &mut Composer, vals: &[Fe]| -> Vec<Witness> { vals.iter().map(|x| c.append_witness(*x)).collect() };
+    v.push(comp("append_gate", 4, move |c, x| {
+        let w = ws(c, x);
+        c.append_gate(Constraint::new().mult(1).left(2).right(3).output(-BlsScalar::one()).fourth(1).constant(4).a(w[0]).b(w[1]).c(w[2]).d(w[3]));
+        Ok(())
+    }));
+    v.push(comp("gate_add", 3, move |c, x| {
+        let w = ws(c, x);
+        c.gate_add(Constraint::new().left(1).right(1).fourth(2).a(w[0]).b(w[1]).d(w[2]));
+        Ok(())
+    }));
+    v.push(comp("gate_mul", 3, move |c, x| {
+        let w = ws(c, x);
+        c.gate_mul(Constraint::new().mult(1).fourth(1).a(w[0]).b(w[1]).d(w[2]));
+        Ok(())
+    }));
+    for qo in [2i64, 0] {
+        v.push(comp(&format!("append_evaluated_output/qo{}", qo), 3, move |c, x| {
+            let w = ws(c, x);
+            c.append_evaluated_output(Constraint::new().mult(1).left(1).output(fi(qo)).a(w[0]).b(w[1]).d(w[2]));
+            Ok(())
+        }));
+    }
+    v.push(comp("assert_equal", 2, move |c, x| {
+        let w = ws(c, x);
+        c.assert_equal(w[0], w[1]);
+        Ok(())
+    }));
+    v.push(comp("assert_equal_constant", 1, move |c, x| {
+        let w = ws(c, x);
+        c.assert_equal_constant(w[0], fe(5), Some(fe(2)));
+        Ok(())
+    }));
+    v.push(comp("append_public", 1, move |c, x| {
+        c.append_public(x[0]);
+        Ok(())
+    }));
+    v.push(comp("component_boolean", 1, move |c, x| {
+        let w = ws(c, x);
+        c.component_boolean(w[0]);
+        Ok(())
+    }));
+    v.push(comp("component_select", 3, move |c, x| {
+        let w = ws(c, x);
+        c.component_select(w[0], w[1], w[2]);
+        Ok(())
+    }));
+    v.push(comp("component_select_one", 2, move |c, x| {
+        let w = ws(c, x);
+        c.component_select_one(w[0], w[1]);
+        Ok(())
+    }));
+    v.push(comp("component_select_zero", 2, move |c, x| {
+        let w = ws(c, x);
+        c.component_select_zero(w[0], w[1]);
+        Ok(())
+    }));
+    let range_w: Vec<usize> = tier.pick(vec![0, 1, 2, 3, 7, 8, 9, 15, 16, 17, 64, 127, 128, 253, 254, 255, 256], (0..=256).collect());
+    for w in range_w {
+        v.push(comp(&format!("component_range_bits/{}", w), 1, move |c, x| {
+            let a = c.append_witness(x[0]);
+            dispatch::range_bits(c, a, w);
+            Ok(())
+        }));
+    }
+    let pairs: Vec<usize> = tier.pick(vec![0, 1, 4, 5, 64, 128, 130, 1000], (0..=130).chain([200, 1000]).collect());
+    for p in pairs {
+        v.push(comp(&format!("component_range/{}", p), 1, move |c, x| {
+            let a = c.append_witness(x[0]);
+            dispatch::range_pairs(c, a, p);
+            Ok(())
+        }));
+    }
+    let logic_p: Vec<usize> = tier.pick(vec![0, 1, 2, 3, 64, 127], (0..=127).collect());
+    for p in logic_p {
+        for xor in [false, true] {
+            v.push(comp(&format!("append_logic_{}/{}", if xor { "xor" } else { "and" }, p), 2, move |c, x| {
+                let a = c.append_witness(x[0]);
+                let b = c.append_witness(x[1]);
+                if xor {
+                    dispatch::logic_xor(c, a, b, p);
+                } else {
+                    dispatch::logic_and(c, a, b, p);
+                }
+                Ok(())
+            }));
+        }
+    }
+    let trunc_n: Vec<usize> = tier.pick(vec![0, 1, 2, 7, 8, 9, 128, 253, 254], (0..=254).collect());
+    for n in trunc_n {
+        v.push(comp(&format!("component_truncate/{}", n), 1, move |c, x| {
+            let a = c.append_witness(x[0]);
+            dispatch::truncate(c, a, n);
+            Ok(())
+        }));
+    }
+    let dec_n: Vec<usize> = tier.pick(vec![1, 2, 8, 9, 128, 252, 254, 255, 256], (1..=256).collect());
+    for n in dec_n {
+        v.push(comp(&format!("component_decomposition/{}", n), 1, move |c, x| {
+            let a = c.append_witness(x[0]);
+            dispatch::decomposition(c, a, n);
+            Ok(())
+        }));
+    }
+    // point components over arbitrary coordinate witnesses
+    v.push(comp("assert_equal_point", 4, move |c, x| {
+        let w = ws(c, x);
+        let (a, b) = (c.verif_point(w[0], w[1]), c.verif_point(w[2], w[3]));
+        c.assert_equal_point(a, b);
+        Ok(())
+    }));
+    v.push(comp("assert_torsion_free_point", 2, move |c, x| {
+        let w = ws(c, x);
+        let p = c.verif_point(w[0], w[1]);
+        c.assert_torsion_free_point(p);
+        Ok(())
+    }));
+    v.push(comp("component_neg_point", 2, move |c, x| {
+        let w = ws(c, x);
+        c.component_neg_point(tf(c, w[0], w[1]));
+        Ok(())
+    }));
+    v.push(comp("component_add_point", 4, move |c, x| {
+        let w = ws(c, x);
+        c.component_add_point(tf(c, w[0], w[1]), tf(c, w[2], w[3]));
+        Ok(())
+    }));
+    v.push(comp("component_sub_point", 4, move |c, x| {
+        let w = ws(c, x);
+        c.component_sub_point(tf(c, w[0], w[1]), tf(c, w[2], w[3]));
+        Ok(())
+    }));
+    v.push(comp("component_select_identity", 3, move |c, x| {
+        let w = ws(c, x);
+        c.component_select_identity(w[0], tf(c, w[1], w[2]));
+        Ok(())
+    }));
+    v.push(comp("component_select_point", 5, move |c, x| {
+        let w = ws(c, x);
+        let (a, b) = (c.verif_point(w[1], w[2]), c.verif_point(w[3], w[4]));
+        c.component_select_point(w[0], a, b);
+        Ok(())
+    }));
+    v.push(comp("component_mul_point", 3, move |c, x| {
+        let w = ws(c, x);
+        c.component_mul_point(w[0], tf(c, w[1], w[2]));
+        Ok(())
+    }));
+    v.push(comp("component_mul_generator", 1, move |c, x| {
+        let w = ws(c, x);
+        c.component_mul_generator(w[0], GENERATOR_EXTENDED)?;
+        Ok(())
+    }));
+    v
+}
+
+/// value tuples of the requested arity
+fn tuples(arity: usize, f: &[Fe], fs: &[Fe], point_coords: &[(Fe, Fe)]) -> Vec<Vec<Fe>> {
+    match arity {
+        0 => vec![vec![]],
+        1 => f.iter().map(|a| vec![*a]).collect(),
+        2 => {
+            let mut out: Vec<Vec<Fe>> = vec![];
+            for a in f {
+                for b in fs {
+                    out.push(vec![*a, *b]);
+                }
+            }
+            // coordinate pairs of real / malformed points
+            for (x, y) in point_coords {
+                out.push(vec![*x, *y]);
+            }
+            out
+        }
+        3 => {
+            let mut out = vec![];
+            for a in fs {
+                for b in fs {
+                    for c in fs.iter().take(6) {
+                        out.push(vec![*a, *b, *c]);
+                    }
+                }
+            }
+            for (x, y) in point_coords {
+                for a in fs.iter().take(6) {
+                    out.push(vec![*a, *x, *y]);
+                }
+            }
+            out
+        }
+        4 | 5 => {
+            let mut out = vec![];
+            let pre: Vec<Fe> = if arity == 5 { vec![fs[1]] } else { vec![] };
+            for (x1, y1) in point_coords {
+                for (x2, y2) in point_coords {
+                    let mut t = pre.clone();
+                    t.extend([*x1, *y1, *x2, *y2]);
+                    out.push(t);
+                }
+            }
+            for a in fs.iter().take(5) {
+                for b in fs.iter().rev().take(5) {
+                    let mut t = pre.clone();
+                    t.extend([*a, *b, *b, *a]);
+                    out.push(t);
+                }
+            }
+            if arity == 5 {
+                let extra: Vec<Vec<Fe>> = out.iter().take(8).map(|t| { let mut u = t.clone(); u[0] = fs[3]; u }).collect();
+                out.extend(extra);
+            }
+            out
+        }
+        _ => vec![],
+    }
+}
+
+fn point_coords() -> Vec<(Fe, Fe)> {
+    let g = Pt::from_jubjub(GENERATOR_EXTENDED);
+    let tors = m5::torsion_points();
+    let mut v = vec![(zero(), one()), (g.x, g.y), (g.neg().x, g.y)];
+    let gt = g.add(&tors[1]).unwrap();
+    v.push((gt.x, gt.y));
+    v.push((tors[2].x, tors[2].y));
+    v.push((zero(), zero()));
+    v.push((one(), one()));
+    v.push((g.x, g.y + one()));
+    // pole-inducing pair for the addition law with G: d*x1*x2*y1*y2 = -1
+    let d = m1::edwards_d();
+    let x2 = fe(3);
+    let y2 = -inv(d * g.x * g.y * x2);
+    v.push((x2, y2));
+    v
+}
+
+fn run_layout(b: &Build, vals: &[Fe]) -> Result<Result<u64, String>, String> {
+    let b = b.clone();
+    let vals = vals.to_vec();
+    let p = Prog::new(move |c| b(c, &vals));
+    match std::panic::catch_unwind(std::panic::AssertUnwindSafe(|| p.run())) {
+        Err(e) => Err(crate::par::panic_msg(e)),
+        Ok(Err(e)) => Ok(Err(format!("{:?}", e))),
+        Ok(Ok(s)) => Ok(Ok(m1::layout_key(&s))),
+    }
+}
+
+/// point entry points taking native extended points
+fn native_point_entry(run: &mut Run) {
+    let g = GENERATOR_EXTENDED;
+    let pts = point_coords();
+    let mut reps: Vec<(String, JubJubExtended)> = vec![];
+    for (i, (x, y)) in pts.iter().enumerate() {
+        reps.push((format!("p{}/normal", i), JubJubExtended::from_raw_unchecked(*x, *y, one(), *x, *y)));
+        reps.push((format!("p{}/scaledZ", i), JubJubExtended::from_raw_unchecked(*x * fe(5), *y * fe(5), fe(5), *x, *y * fe(5))));
+        reps.push((format!("p{}/Z=0", i), JubJubExtended::from_raw_unchecked(*x, *y, zero(), *x, *y)));
+        reps.push((format!("p{}/badT", i), JubJubExtended::from_raw_unchecked(*x, *y, one(), *x + one(), *y)));
+    }
+    let _ = g;
+    type Call = (&'static str, fn(&mut Composer, JubJubExtended) -> Result<(), Error>);
+    let calls: Vec<Call> = vec![
+        ("append_point", |c, e| c.append_point(e).map(|_| ())),
+        ("append_public_point", |c, e| c.append_public_point(e).map(|_| ())),
+        ("append_constant_point", |c, e| c.append_constant_point(e).map(|_| ())),
+        ("assert_equal_public_point", |c, e| {
+            let w = c.append_point(JubJubExtended::from(dusk_jubjub::GENERATOR))?;
+            c.assert_equal_public_point(w, e)
+        }),
+        ("component_mul_generator(gen)", |c, e| {
+            let s = c.append_witness(fe(3));
+            c.component_mul_generator(s, e).map(|_| ())
+        }),
+    ];
+    for (cn, call) in calls {
+        // reference layout from the generator in normal form
+        let reference = {
+            let mut c = Composer::initialized();
+            call(&mut c, GENERATOR_EXTENDED).ok().map(|_| m1::layout_key(&c.verif_snapshot()))
+        };
+        for (rn, e) in &reps {
+            run.transitions += 1;
+            run.evaluations += 1;
+            run.traces_validated += 1;
+            let e = *e;
+            let r = std::panic::catch_unwind(std::panic::AssertUnwindSafe(|| {
+                let mut c = Composer::initialized();
+                call(&mut c, e).map(|_| m1::layout_key(&c.verif_snapshot()))
+            }));
+            run.nontrivial(fnv(format!("{}{}", cn, rn).as_bytes()));
+            match r {
+                Err(p) => {
+                    run.outcome("native-point:panic");
+                    run.violation(&format!("{}/panic/{}", cn, rn.split('/').nth(1).unwrap_or("")), &format!("{} panicked on {}: {}", cn, rn, crate::par::panic_msg(p)), json!({"component": cn, "representation": rn}));
+                }
+                Ok(Err(_)) => run.outcome("native-point:error"),
+                Ok(Ok(k)) => {
+                    run.outcome("native-point:same-shape-or-constant");
+                    // constant points legitimately change selector constants; only the
+                    // witness-carrying entry points must keep the layout
+                    if (cn == "append_point" || cn == "append_public_point" || cn == "assert_equal_public_point") && Some(k) != reference {
+                        run.violation(&format!("{}/layout-depends-on-value", cn), &format!("{} emitted a different layout for {}", cn, rn), json!({"component": cn, "representation": rn}));
+                    }
+                }
+            }
+        }
+    }
+}
+
+/// bound-1 deviations inside representative gadgets: never a panic, never
+/// another layout.
+fn deviation_totality(run: &mut Run, tier: Tier) {
+    let g = Pt::from_jubjub(GENERATOR_EXTENDED);
+    let big = neg1();
+    let mut gs: Vec<Gadget> = vec![
+        Gadget::new("range9", vec![big], |c, i| {
+            dispatch::range_bits(c, i[0], 9);
+            Ok(vec![])
+        }),
+        Gadget::new("xor3", vec![big, fe(77)], |c, i| Ok(vec![dispatch::logic_xor(c, i[0], i[1], 3)])),
+        Gadget::new("truncate7", vec![big], |c, i| Ok(vec![dispatch::truncate(c, i[0], 7)])),
+        Gadget::new("decomposition5", vec![fe(21)], |c, i| Ok(dispatch::decomposition(c, i[0], 5))),
+        Gadget::new("add_point", vec![g.x, g.y, g.x, g.y], |c, i| {
+            let r = c.component_add_point(tf(c, i[0], i[1]), tf(c, i[2], i[3]));
+            Ok(vec![*r.x()])
+        }),
+        Gadget::new("torsion_free", vec![g.x, g.y], |c, i| {
+            let p = c.verif_point(i[0], i[1]);
+            c.assert_torsion_free_point(p);
+            Ok(vec![])
+        }),
+        Gadget::new("select_identity", vec![one(), g.x, g.y], |c, i| {
+            let r = c.component_select_identity(i[0], tf(c, i[1], i[2]));
+            Ok(vec![*r.x()])
+        }),
+        Gadget::new("mul_generator", vec![fe(1234567)], |c, i| {
+            let r = c.component_mul_generator(i[0], GENERATOR_EXTENDED)?;
+            Ok(vec![*r.x()])
+        }),
+    ];
+    if tier == Tier::Thorough {
+        gs.push(Gadget::new("mul_point", vec![fe(99), g.x, g.y], |c, i| {
+            let r = c.component_mul_point(i[0], tf(c, i[1], i[2]));
+            Ok(vec![*r.x()])
+        }));
+        gs.push(Gadget::new("range254", vec![big], |c, i| {
+            dispatch::range_bits(c, i[0], 254);
+            Ok(vec![])
+        }));
+        gs.push(Gadget::new("and127", vec![big, fe(77)], |c, i| Ok(vec![dispatch::logic_and(c, i[0], i[1], 127)])));
+    }
+    let results = crate::par::par_map(&gs, |gd| {
+        let h = e2::honest(gd).map_err(|e| format!("honest run failed: {}", e))?;
+        let extra = |_: usize, v: Fe| -> Vec<(String, Fe)> { vec![("big".into(), neg1()), ("2^254".into(), pow2(254)), ("x2".into(), v + v)] };
+        let devs = e2::bound1(&h, &extra);
+        let mut panics = vec![];
+        let mut changed = vec![];
+        let mut n = 0u64;
+        let mut errs = 0u64;
+        for d in &devs {
+            n += 1;
+            let (p, _) = gd.prog();
+            let p = p.with_script(d.script.clone());
+            let r = std::panic::catch_unwind(std::panic::AssertUnwindSafe(|| p.run()));
+            dusk_plonk::verif::set_witness_script(&[]);
+            match r {
+                Err(e) => panics.push((d.tag.clone(), crate::par::panic_msg(e))),
+                Ok(Err(_)) => errs += 1,
+                Ok(Ok(s)) => {
+                    if m1::layout_key(&s) != h.layout {
+                        changed.push(d.tag.clone());
+                    }
+                }
+            }
+        }
+        Ok::<_, String>((n, errs, panics, changed))
+    });
+    for (gd, r) in gs.iter().zip(results) {
+        match r {
+            Err(p) => run.machinery(format!("deviation totality harness panic ({}): {}", gd.name, p)),
+            Ok(Err(e)) => run.machinery(format!("{}: {}", gd.name, e)),
+            Ok(Ok((n, errs, panics, changed))) => {
+                run.transitions += n;
+                run.evaluations += n;
+                run.outcome_n("deviation:runs", n);
+                run.outcome_n("deviation:generator-error", errs);
+                if let Some((tag, msg)) = panics.first() {
+                    run.violation(&format!("deviation/{}/panic", gd.name), &format!("{} panicked under internal deviation {}: {}", gd.name, tag, msg), json!({"gadget": gd.name, "deviation": tag, "count": panics.len()}));
+                }
+                if let Some(tag) = changed.first() {
+                    run.violation(&format!("deviation/{}/layout-changed", gd.name), &format!("{} emitted another layout under internal deviation {}", gd.name, tag), json!({"gadget": gd.name, "deviation": tag, "count": changed.len()}));
+                }
+            }
+        }
+    }
+}
+
+/// `Compiler::compile::<C>()` (default instance) and
+/// `compile_with_circuit(&instance)` give the same keys.
+fn compile_equivalence(run: &mut Run, comps: &[Comp]) {
+    let pp = crate::setup::pp(1 << 9);
+    let pick = ["gate_add", "component_select", "component_range_bits/9", "append_logic_xor/2", "component_truncate/8", "component_decomposition/8", "component_add_point", "component_select_identity"];
+    let g = Pt::from_jubjub(GENERATOR_EXTENDED);
+    for name in pick {
+        let Some(c) = comps.iter().find(|c| c.name == name) else { continue };
+        let zero_vals = vec![zero(); c.arity];
+        let b0 = c.build.clone();
+        let z = zero_vals.clone();
+        let default_prog = Prog::new(move |cc| b0(cc, &z));
+        default_prog.install_default();
+        let (p0, v0) = match Compiler::compile::<Prog>(&pp, b"c07") {
+            Ok(k) => k,
+            Err(e) => {
+                run.violation(&format!("compile/{}/default-failed", name), &format!("{:?}", e), json!({"component": name}));
+                continue;
+            }
+        };
+        for vals in [vec![neg1(); c.arity], vec![g.x, g.y, g.x, g.y, g.x][..c.arity].to_vec(), (0..c.arity).map(|i| pow2(200 + i)).collect::<Vec<_>>()] {
+            let b1 = c.build.clone();
+            let vv = vals.clone();
+            let inst = Prog::new(move |cc| b1(cc, &vv));
+            run.transitions += 1;
+            run.evaluations += 1;
+            run.traces_validated += 1;
+            match Compiler::compile_with_circuit(&pp, b"c07", &inst) {
+                Err(_) => run.outcome("compile:instance-error"),
+                Ok((p1, v1)) => {
+                    if p1.to_bytes() != p0.to_bytes() || v1.to_bytes() != v0.to_bytes() {
+                        run.violation(&format!("compile/{}/keys-depend-on-instance", name), "compile::<C>() and compile_with_circuit(&instance) produced different keys", json!({"component": name, "values": vals.iter().map(hex).collect::<Vec<_>>()}));
+                    } else {
+                        run.outcome("compile:same-keys");
+                    }
+                }
+            }
+        }
+    }
+}
+
+pub fn main(tier: Tier, replay: Option<serde_json::Value>) -> i32 {
+    let mut run = Run::new("C07", tier, "model_checking");
+    run.rule = "every public component x const-generic width (dispatch tables) x value tuples over the boundary alphabet F (arity <= 2) / F_s (arity >= 3) and real / torsion / off-curve / pole-inducing coordinate pairs; oracle: the emitted layout (selectors, wiring, PI rows, counts) equals the layout of the all-zero instance, or the component returned Err; never a panic; native point entry points over extended representations incl. Z=0 and inconsistent T; bound-1 internal deviations of representative gadgets neither panic nor change the layout; compile::<C>() keys equal compile_with_circuit(&instance) keys".into();
+    if replay.is_some() {
+        run.set_replay_mode();
+        eprintln!("C07 replay: re-running the whole quick sweep (cases are cheap)");
+    }
+    let comps = components(tier);
+    let f = alphabet_f(seed());
+    let fs = alphabet_fs(seed());
+    let pc = point_coords();
+    struct Item {
+        comp: usize,
+        vals: Vec<Fe>,
+    }
+    let mut items = vec![];
+    for (ci, c) in comps.iter().enumerate() {
+        let mut ts = tuples(c.arity, &f, &fs, &pc);
+        // heavy gadgets: thin out in quick
+        let heavy = c.name.starts_with("component_mul_point") || c.name.contains("/127") || c.name.contains("/25");
+        if tier == Tier::Quick && heavy && ts.len() > 24 {
+            ts = ts.into_iter().step_by(5).collect();
+        }
+        for t in ts {
+            items.push(Item { comp: ci, vals: t });
+        }
+    }
+    let refs: Vec<Result<Result<u64, String>, String>> = comps.iter().map(|c| run_layout(&c.build, &vec![zero(); c.arity])).collect();
+    for (c, r) in comps.iter().zip(&refs) {
+        if !matches!(r, Ok(Ok(_))) {
+            run.violation(&format!("{}/zero-instance-failed", c.name), &format!("all-zero instance: {:?}", r), json!({"component": c.name}));
+        }
+    }
+    let outs = crate::par::par_map(&items, |it| run_layout(&comps[it.comp].build, &it.vals));
+    let mut shapes = std::collections::HashSet::new();
+    for (it, o) in items.iter().zip(outs) {
+        run.transitions += 1;
+        run.evaluations += 1;
+        run.traces_validated += 1;
+        let c = &comps[it.comp];
+        let case = json!({"component": c.name, "values": it.vals.iter().map(hex).collect::<Vec<_>>()});
+        let class = c.name.split('/').next().unwrap_or("");
+        match o {
+            Err(p) => run.machinery(format!("harness panic {}: {}", c.name, p)),
+            Ok(Err(p)) => {
+                run.outcome("panic");
+                run.violation(&format!("{}/panic", class), &format!("{} panicked on {:?}: {}", c.name, it.vals.iter().map(hex).collect::<Vec<_>>(), p), case);
+            }
+            Ok(Ok(Err(_))) => run.outcome("returned-error"),
+            Ok(Ok(Ok(k))) => {
+                run.nontrivial(fnv(format!("{}{:?}", c.name, it.vals).as_bytes()));
+                shapes.insert(k);
+                if let Ok(Ok(r)) = &refs[it.comp] {
+                    if *r != k {
+                        run.outcome("layout-differs");
+                        run.violation(&format!("{}/layout-depends-on-value", class), &format!("{} emitted a different layout for {:?}", c.name, it.vals.iter().map(hex).collect::<Vec<_>>()), case);
+                    } else {
+                        run.outcome("same-layout");
+                    }
+                }
+            }
+        }
+        if run.samples.len() < 5 && run.transitions % 1301 == 7 {
+            run.sample(json!({"component": c.name, "values": it.vals.iter().map(hex).collect::<Vec<_>>()}));
+        }
+    }
+    run.states = shapes.len() as u64;
+    native_point_entry(&mut run);
+    deviation_totality(&mut run, tier);
+    compile_equivalence(&mut run, &comps);
+    run.gate("same-layout cases", run.count("same-layout") > 1000);
+    run.gate("error-returning cases", run.count("returned-error") + run.count("native-point:error") > 0);
+    run.bound("components", json!(comps.len()));
+    run.assumptions = vec!["value tuples come from the boundary alphabets, not the whole field".into(), "constant parameters (append_constant / constant points / generators) legitimately shape the layout and are held fixed".into()];
+    run.finish()
 }
